@@ -1054,6 +1054,14 @@ class FnAnalysis:
                 val = v if isinstance(v, Fl) else Fl(getattr(v, "t", False), getattr(v, "why", ""))
             else:
                 val = v if ck.startswith("PointerCoercion") or ck in ("PtrToPtr", "Transmute") else None
+                if ck.startswith("PointerCoercion"):
+                    # &[T; N] -> &[T]: the slice's length is the array's (read back by `len`)
+                    ma = re.match(r"^&(?:mut )?\[.*;\s*(\d+)\]$", fty or "")
+                    if ma and re.match(r"^&(?:mut )?\[.*\]$", tty or "") and not re.search(r";\s*\d+\]$", tty or ""):
+                        n_ = int(ma.group(1))
+                        f_ = dict(val.f) if isinstance(val, Rec) else {}
+                        f_["__slicelen"] = AV(n_, n_)
+                        val = Rec(f_)
         elif kind == "bin":
             op, a, b, ty = rv[1], self.operand(env, rv[2]), self.operand(env, rv[3]), self.sty(rv[4])
             if op in ("Eq", "Ne", "Lt", "Le", "Gt", "Ge"):
@@ -2007,6 +2015,8 @@ class FnAnalysis:
                 return Fl(a0.t, a0.why, None, a0.w, a0.x, lo=a0.lo, hi=a0.hi)
             return a0 if not (isinstance(a0, AV) and r and (a0.lo < r[0] or a0.hi > r[1])) else a0.re(r[0], r[1])
         if name in ("len",):
+            if isinstance(a0, Rec) and isinstance(a0.f.get("__slicelen"), AV) and path.startswith("core::slice::"):
+                return a0.f["__slicelen"]
             return AV(0, (1 << 63) - 1)
         if name in ("saturating_add", "saturating_sub", "saturating_mul", "checked_add", "checked_sub", "checked_mul") \
                 and isinstance(a0, AV) and isinstance(a1, AV) and path.startswith("core::num::"):
